@@ -198,6 +198,7 @@ func vHarnessUpdateDID() {
 	ctx, k := vEnvDid()
 	w := vNewWorld()
 	did := vNondetAtom("did")
+	vAssume(did != "") // an empty DID never passes ValidateBasic (unit did-validate)
 	ids := []string{vNondetAtom("idA"), vNondetAtom("idB")}
 	st, kind := vStoredState(ctx, k, w, did, ids)
 	wd, wst, whas := vWitness(ctx, k, w, did)
@@ -240,6 +241,7 @@ func vHarnessDeactivateDID() {
 	ctx, k := vEnvDid()
 	w := vNewWorld()
 	did := vNondetAtom("did")
+	vAssume(did != "") // an empty DID never passes ValidateBasic (unit did-validate)
 	ids := []string{vNondetAtom("idA"), vNondetAtom("idB")}
 	st, kind := vStoredState(ctx, k, w, did, ids)
 	wd, wst, whas := vWitness(ctx, k, w, did)
@@ -273,6 +275,7 @@ func vHarnessCreateDID() {
 	ctx, k := vEnvDid()
 	w := vNewWorld()
 	did := vNondetAtom("did")
+	vAssume(did != "") // an empty DID never passes ValidateBasic (unit did-validate)
 	ids := []string{vNondetAtom("idA"), vNondetAtom("idB")}
 	st, kind := vStoredState(ctx, k, w, did, ids)
 	wd, wst, whas := vWitness(ctx, k, w, did)
